@@ -503,6 +503,8 @@ class H2Server:
     def _respond(self, sid):
         st = self.streams[sid]
         ex = st["ex"]
+        if ex.get("refused"):
+            return  # a truthful server does not answer a stream that its GOAWAY has just declared unprocessed
         plan = self.net.plan(ex["token"])
         dep = plan.get("after_request")
         if dep is not None and dep not in self.net.seen_tokens:
